@@ -52,9 +52,7 @@ def contracts():
         requires=["len(self.scanner.filename) > 0"],
         modifies=["self._line_monitor", "self._headers", "self.csvpaths.file_manager.cacher.g_lm_calls", "self.csvpaths.file_manager.cacher.g_hdr_calls"],
         ensures={"line_counts_of_the_file_being_scanned": "self._line_monitor.g_of == self.scanner.filename",
-                 "headers_of_the_file_being_scanned": "same(self._headers, ufun_val('headers_of', self.scanner.filename))",
-                 "asks_once_each": "self.csvpaths.file_manager.cacher.g_lm_calls == old(self.csvpaths.file_manager.cacher.g_lm_calls) + 1 and "
-                                   "self.csvpaths.file_manager.cacher.g_hdr_calls == old(self.csvpaths.file_manager.cacher.g_hdr_calls) + 1"},
+                 "headers_of_the_file_being_scanned": "same(self._headers, ufun_val('headers_of', self.scanner.filename))"},
         class_fields={**CF, "LineMonitor": {**CF["LineMonitor"], "g_of": "str"}}, macros=MACROS, returns="val", native={"skip": True},
         property_clauses={"line_counts_of_the_file_being_scanned": "C19", "headers_of_the_file_being_scanned": "C19"}))
     # the cacher hands out private copies: what one caller does to its copy cannot reach the next caller
